@@ -17,12 +17,21 @@
 //	           backend connection from a fake pool, USE phyDB, FieldList)
 //	lookup     (separate scenarios, API level) rule := Router.GetRule(db, table); rule.GetDB()
 //
+// Error paths are part of the workload: sessions WITHOUT a selected database whose statements
+// are refused with "no database selected", syntax errors, sharding-key errors - mixed with
+// valid statements of other sessions. "Planned alone" means alone on FRESH PROCESS STATE: the
+// references come from one short-lived process per statement, the explorer runs on one P with
+// the collector confined to the gaps between executions (two cycles, which empty every
+// sync.Pool), so state leaking through pooled per-statement objects of the planner is
+// deterministic within an execution and cannot leak into the next one.
+//
 // Oracle:
 //
 //	(a) what each thread obtains (plan type, database, per-slice/per-db SQL map; for a field
 //	    list: slice used, database selected, table asked) equals what the same statement
-//	    yields when it is planned alone on a fresh namespace; for `lookup`: the rule returned
-//	    for (db, table) reports db;
+//	    yields when it is planned alone on a fresh namespace in a fresh process (a refused
+//	    statement must be refused with the same error); for `lookup`: the rule returned for
+//	    (db, table) reports db;
 //	(b) no happens-before race on router / rule / shard state; a reflective deep dump of
 //	    everything reachable from the Router (rules, slice and map CONTENTS, shard objects,
 //	    hash function, bucket tree) is the same before and after the run.
@@ -36,10 +45,13 @@ import (
 	"go/parser"
 	"go/token"
 	"os"
+	"os/exec"
 	"path/filepath"
+	"runtime"
 	"runtime/debug"
 	"sort"
 	"strings"
+	"sync"
 	"time"
 
 	"github.com/XiaoMi/Gaea/backend"
@@ -81,6 +93,8 @@ type op struct {
 	DB    string `json:"db"`   // session database
 	SQL   string `json:"sql,omitempty"`
 	Table string `json:"table,omitempty"`
+	// Refused: the statement is expected to be refused when planned alone (error path)
+	Refused bool `json:"refused,omitempty"`
 }
 
 var ops = map[string]op{
@@ -115,6 +129,20 @@ var ops = map[string]op{
 	"ra":  {Kind: "plan", DB: "db1", SQL: "select id from r"},
 	"rd":  {Kind: "plan", DB: "db1", SQL: "delete from r where a = 1"},
 	"ir":  {Kind: "plan", DB: "db1", SQL: "insert into r (id, a) values (150, 1)"},
+	// error paths. Sessions WITHOUT a selected database: statements that reach plan.BuildPlan
+	// (the token pre-check declines them) and name a table without a database are refused with
+	// "no database selected"; ndok names its database and is valid.
+	"nd1":  {Kind: "plan", DB: "", SQL: "select * from db3.u where id in (select id from v)", Refused: true},
+	"nd2":  {Kind: "plan", DB: "", SQL: "select * from db3.u a, v b where a.id = b.id", Refused: true},
+	"nd3":  {Kind: "plan", DB: "", SQL: "explain select * from u where id = 1", Refused: true},
+	"ndok": {Kind: "plan", DB: "", SQL: "select * from db1.t where id = 3"},
+	// other refusals: syntax error, sharded insert without / with NULL sharding key, update of
+	// the sharding key, key outside every range
+	"epa": {Kind: "plan", DB: "db1", SQL: "select * from t where", Refused: true},
+	"eik": {Kind: "plan", DB: "db1", SQL: "insert into t (a) values (1)", Refused: true},
+	"ein": {Kind: "plan", DB: "db1", SQL: "insert into t (id, a) values (null, 1)", Refused: true},
+	"euk": {Kind: "plan", DB: "db1", SQL: "update t set id = 5 where id = 1", Refused: true},
+	"era": {Kind: "plan", DB: "db1", SQL: "insert into r (id, a) values (99999, 1)", Refused: true},
 	// unsharded writes (CheckUnshardInsert / CheckUnshardUpdate / CheckUnshardBase for delete)
 	"i1": {Kind: "plan", DB: "db1", SQL: "insert into u (a) values (1)"},
 	"up": {Kind: "plan", DB: "db2", SQL: "update u set a = 1 where id = 2"},
@@ -219,17 +247,69 @@ func runOp(ww *world, se *server.SessionExecutor, key string, o op) string {
 	return "?"
 }
 
-var aloneCache = map[string]string{}
+// Reference: every statement planned ALONE ON FRESH PROCESS STATE. Planning may leave state
+// behind in package-level objects (sync.Pools of per-statement helpers), so the references are
+// not computed in this process one after the other: the parent starts one short-lived copy of
+// itself per statement (C07_ALONE=<name>) and hands the results to the exploration workers
+// through the environment (C07_REFS).
+var refs map[string]string
 
-// alone plans one statement on a fresh namespace, outside the scheduler.
 func alone(name string) string {
-	if d, ok := aloneCache[name]; ok {
-		return d
+	d, ok := refs[name]
+	if !ok {
+		ev.Fatalf("no reference plan for statement %s", name)
+	}
+	return d
+}
+
+func aloneChild(name string) {
+	o, ok := ops[name]
+	if !ok {
+		ev.Fatalf("C07_ALONE: unknown statement %q", name)
 	}
 	ww := newWorld(1)
-	d := runOp(ww, ww.ses[0], "", ops[name])
-	aloneCache[name] = d
-	return d
+	fmt.Print(runOp(ww, ww.ses[0], "", o))
+	os.Exit(0)
+}
+
+func loadRefs(names []string) {
+	if v := os.Getenv("C07_REFS"); v != "" {
+		if err := json.Unmarshal([]byte(v), &refs); err != nil {
+			ev.Fatalf("C07_REFS: %v", err)
+		}
+		return
+	}
+	self := os.Getenv("VERIF_CHECK_BIN")
+	if self == "" {
+		self, _ = os.Executable()
+	}
+	refs = map[string]string{}
+	out := make([]string, len(names))
+	errs := make([]error, len(names))
+	var wg sync.WaitGroup
+	sem := make(chan struct{}, 16)
+	for i, n := range names {
+		wg.Add(1)
+		go func(i int, n string) {
+			defer wg.Done()
+			sem <- struct{}{}
+			defer func() { <-sem }()
+			cmd := exec.Command(self, "quick")
+			cmd.Env = append(os.Environ(), "C07_ALONE="+n)
+			cmd.Stderr = os.Stderr
+			b, err := cmd.Output()
+			out[i], errs[i] = string(b), err
+		}(i, n)
+	}
+	wg.Wait()
+	for i, n := range names {
+		if errs[i] != nil {
+			ev.Fatalf("reference plan of %s: %v", n, errs[i])
+		}
+		refs[n] = out[i]
+	}
+	b, _ := json.Marshal(refs)
+	os.Setenv("C07_REFS", string(b))
 }
 
 func body(sc scenario) func() {
@@ -531,25 +611,33 @@ func scenarios(r *ev.Run) []scenario {
 	s := []scenario{
 		// sharding-key conditions on every rule type (shard objects, murmur hash function); first: they are the longest
 		{Name: "murmur-2keys", Threads: [][]string{{"mm1"}, {"mm2"}}},
-		{Name: "murmur-repeat", Threads: [][]string{{"mm1", "mm3"}, {"mm2"}}},
+		{Name: "murmur-repeat", Threads: [][]string{{"mm1", "mm3"}, {"u1"}}},
 		{Name: "mycat-string-2keys", Threads: [][]string{{"ms1"}, {"ms2"}}},
 		{Name: "mycat-long-2keys", Threads: [][]string{{"ml1"}, {"ml2"}}},
 		{Name: "datemonth-2keys", Threads: [][]string{{"dm1"}, {"dm2"}}},
 		{Name: "hash-2keys", Threads: [][]string{{"h3"}, {"sh"}}},
 		{Name: "range-notbetween", Threads: [][]string{{"rnb", "ra"}, {"u1"}}},
-		{Name: "range-notbetween-conc", Threads: [][]string{{"rnb"}, {"r1"}}},
-		{Name: "range-between-in", Threads: [][]string{{"rb"}, {"rin"}}},
-		{Name: "range-delete", Threads: [][]string{{"rd"}, {"r1"}}},
+		{Name: "range-between-in", Threads: [][]string{{"rb", "rin"}, {"u1"}}},
+		{Name: "range-delete", Threads: [][]string{{"rd"}, {"u1"}}},
 		{Name: "range-insert", Threads: [][]string{{"ir", "ra"}, {"u1"}}},
 		{Name: "range-insert-conc", Threads: [][]string{{"ir"}, {"r1"}}},
 		{Name: "3sessions-murmur", Threads: [][]string{{"mm1"}, {"mm2"}, {"mm3"}}},
 		{Name: "3sessions-ruletypes", Threads: [][]string{{"ml1", "r1"}, {"ms2"}, {"dm1", "mm2"}}},
+		// error paths mixed with valid statements of other sessions (sessions without a
+		// selected database, syntax / sharding-key errors)
+		{Name: "nodb-refused-then-valid", Threads: [][]string{{"nd1", "ndok"}, {"u3"}}},
+		{Name: "nodb-join-explain", Threads: [][]string{{"nd2", "s1"}, {"nd3", "u3"}}},
+		{Name: "errors-parse-key", Threads: [][]string{{"epa", "s1"}, {"eik", "u3"}}},
+		{Name: "errors-insert-update", Threads: [][]string{{"ein", "is"}, {"euk"}}},
+		{Name: "errors-range", Threads: [][]string{{"era", "ir"}, {"u3"}}},
+		{Name: "3sessions-nodb", Threads: [][]string{{"nd1"}, {"s1"}, {"u3"}}},
+		{Name: "3sessions-errors", Threads: [][]string{{"epa", "u3"}, {"nd2"}, {"eik", "s1"}}},
 		{Name: "unshard-db1-db2", Threads: [][]string{{"u1"}, {"u2"}}},
 		{Name: "unshard-shard-mix", Threads: [][]string{{"u1", "s1"}, {"u1", "x2"}}},
 		{Name: "fieldlist-parserpath", Threads: [][]string{{"s1", "u2"}, {"f1", "u3"}}},
 		{Name: "fieldlist-2db", Threads: [][]string{{"f1", "u1"}, {"f2"}}},
 		{Name: "writes", Threads: [][]string{{"up", "i1"}, {"de", "is"}}},
-		{Name: "sharded-only", Threads: [][]string{{"sa"}, {"sh", "fs"}}},
+		{Name: "sharded-only", Threads: [][]string{{"sa"}, {"fs", "s1"}}},
 		{Name: "3sessions-unshard", Threads: [][]string{{"u1"}, {"u2"}, {"f2"}}},
 		{Name: "3sessions-mix", Threads: [][]string{{"s1", "u1"}, {"x2"}, {"fs", "u3"}}},
 		{Name: "lookup-2db", Ops: "lookup", Threads: [][]string{{"l1"}, {"l2"}}},
@@ -568,8 +656,16 @@ func scenarios(r *ev.Run) []scenario {
 
 func main() {
 	gx.Quiet()
-	// executions allocate a fresh namespace each; the live heap is tiny, so collect rarely
-	debug.SetGCPercent(1000)
+	// One P: every scheduler thread then shares the per-P cache of a sync.Pool, so an object Put
+	// by one session is what the next Get of any session returns - pooled per-statement
+	// objects of the planner behave deterministically under the cooperative scheduler.
+	// The collector only runs between executions (twice, in Before: two cycles empty every
+	// sync.Pool, so nothing pooled survives into the next execution or into a replay).
+	runtime.GOMAXPROCS(1)
+	debug.SetGCPercent(-1)
+	if n := os.Getenv("C07_ALONE"); n != "" {
+		aloneChild(n)
+	}
 	r := ev.Start("C07", "model_checking")
 	if os.Getenv("VX_CHILD") == "" {
 		checkAccessList()
@@ -580,11 +676,12 @@ func main() {
 		names = append(names, n)
 	}
 	sort.Strings(names)
+	loadRefs(names)
 	distinct := map[string]bool{}
 	for _, n := range names {
 		d := alone(n)
-		if strings.HasPrefix(d, "error") || d == "?" {
-			ev.Fatalf("statement %s cannot be planned alone: %s", n, d)
+		if refused := strings.HasPrefix(d, "error"); refused != ops[n].Refused || d == "?" || d == "" {
+			ev.Fatalf("statement %s planned alone: %s (expected refused=%v)", n, d, ops[n].Refused)
 		}
 		distinct[d] = true
 	}
@@ -613,7 +710,11 @@ func main() {
 		spec["statements"] = st
 		scs = append(scs, &vx.Scenario{
 			Name: sc.Name, Bound: bound, Spec: spec,
-			Before:   func() { w = newWorld(len(sc.Threads)) },
+			Before: func() {
+				runtime.GC()
+				runtime.GC()
+				w = newWorld(len(sc.Threads))
+			},
 			Body:     body(sc),
 			Features: map[string]string{"ops": sc.Ops},
 			Classify: classify(sc),
